@@ -2,7 +2,7 @@
 """C06 — typing verdicts do not depend on what was typed before."""
 from harness import common, gens, pattern
 
-EXTRA_OBLIGATION_FILES = ("Props/C06_kits.v",)
+EXTRA_OBLIGATION_FILES = ("Props/C06_kits.v", "Props/C06_src.v",)
 
 LEVEL_NOTE = ("Invariant proof over all histories for the cache state machine (a stored pattern is the structure of the "
               "class that owns it); class identity and MRO heads proved by reflection over the kit table regenerated "
